@@ -102,6 +102,11 @@ def check(ctx):
     nma = ctx.model.module("dask/array/ma.py").func("normalize_masked_array")
     ok = bool(find("data = normalize_token(x.data)", nma)) and bool(find("mask = normalize_token(x.mask)", nma)) and bool(find("fill_value = normalize_token(x.fill_value)", nma)) and any(eqv(r.value, "(data, mask, fill_value)") for r in returns(nma))
     ctx.ob("INJ.masked-array.data", nma, "normalize_masked_array = (token of x.data, token of x.mask, token of x.fill_value)", ok, "" if ok else "hashing x.filled() ignores what lies under the mask: two masked arrays that differ there share a from_array name, and getdata()/a narrower mask returns the other one's values when both are in one graph")
+    # ---------------- from_array(name=None | True): the name is the content token (True is not a name)
+    faf = ctx.model.module("dask/array/core.py").func("from_array")
+    br = [n for n in walk_no_nested(faf) if isinstance(n, ast.If) and eqv(n.test, "name in (None, True)")]
+    ok = len(br) == 1 and any(isinstance(s_, ast.Assign) and eqv(s_, "name = f'array-{token}'") for s_ in br[0].body) and not any(isinstance(s_, ast.Assign) and isinstance(s_.value, ast.BoolOp) for s_ in br[0].body)
+    ctx.ob("N1.from-array.name-true", faf, "from_array: name in (None, True) -> name = f'array-{token}' (unconditionally)", ok, "" if ok else "`name or ...` keeps the bool True: every such array is called 'True' and shares its keys with all the others")
 
 
 def key_inputs(ctx, only=None, floor=80, prefix=None):
